@@ -706,7 +706,7 @@ _upd("C15", "Nested struct types are inside the model (Model/BindNested.lean: ge
      "decoder ever addresses a path that is not a leaf (nested_bind_never_faults); a nested leaf decoder is the top-level decoder on the "
      "request focused on the enclosing JSON object (nested_leaf_is_top_level_field); for every field tree of any depth and width and every "
      "request, outside the known-finding classes, Bind gives every leaf exactly the value of the first present source its own tags name "
-     "(nested_bind_refines_spec_partial; witness of the excluded behaviour nested_bind_refines_spec_fails_at; the second former witness is a regression theorem since /repo 1242bf1: embedded_default_repaired); "
+     "(nested_bind_refines_spec_partial; witness of the excluded behaviour nested_bind_refines_spec_fails_at; the second former witness is a regression theorem since /repo 1242bf1: embedded_default_repaired, and promoted embedded structs are now inside the refinement theorem: embedded_types_inside_refinement); "
      "binding the same request twice gives the same result in every body state and a streamed body is bound as a buffered one "
      "(bind_idempotent_on_request, bind_independent_of_body_delivery, both_binds_refine_spec_partial).")
 
